@@ -21,6 +21,9 @@ BASES = ["http://h/p", "http://h/p?a=1", "http://h/p?a=1&b=2", "http://h/p?a=1&a
          "http://h/p?a+b=c%20d&%C3%A9=%2B", "http://h/p?a=%FF&b=%26%3D", "/rel?x=1&y=2&x=3", "http://h/?a=1&a=2&b=1&b=old", "http://h/?a=1&b=1&a=2&b=2&c=3&a=3&b=3", "http://h/p?a=1&&b=2&", "http://h/p?k;=1;2", "?a=b=c",
          # existing keys spelled differently from the way the serialiser would spell them (%20 for '+', a literal ';')
          "http://h/p?a%20b=1&x=1&a%20b=2", "http://h/p?k;v=1&x=2", "http://h/p?a%20b=1&a+b=2&k;v=3"]
+# keys that are substrings of one another (and the empty key): removing one must not touch the others
+BASES += ["http://h/p?page=2&page_size=50&size=3&=e&sort=asc", "http://h/p?a=1&ab=2&abc=3&b=4&=5", "/r?page_size=1&page=2&e=3&pag=4&g=5"]
+SUBSTR_NAMES = [["page_size"], ["page"], ["size"], ["abc"], ["ab"], ["pag"], ["page_size", "zz"], ["sort"], ["e"], ["a"]]
 FIXED_ARGS = [None, "", "a=1", "a=9&z=8", "b", "a=1&a=2", "x y=z+w", ["map"], ["seq"], ["map", ["a", "n"]], ["map", ["a", ["list", "x", "y"]]],
               ["map", ["a", ["list"]]], ["seq", ["a", "1"], ["a", "2"], ["b", "3"]], ["seq", ["a", "x"], ["b", "y"]], ["map", ["b", "y"], ["a", "x"]], "a=x&b=y", ["map", ["z", 5], ["a", ["float", "1.5"]]],
               ["map", ["a", True]], ["map", ["a", None]], ["map", ["a", ["inf"]]], ["map", ["a", ["nan"]]], ["seq", ["a", ["list", "x"]]],
@@ -41,7 +44,7 @@ def run(ctx):
         for q in args:
             for kind, name in ((0, "with_query"), (1, "extend_query"), (2, "update_query")):
                 cases.append((kind, q, [], b, ["op", name, q]))
-        for names in ([], ["a"], ["a", "b"], ["zz"], ["a b"], ["é", "a"], [""]):
+        for names in [[], ["a"], ["a", "b"], ["zz"], ["a b"], ["é", "a"], [""]] + (SUBSTR_NAMES if ("page" in b or "abc" in b) else []):
             cases.append((3, None, names, b, ["op", "without_query_params", names]))
     before = suites.observe(ctx, "C12-bases", [[["push", ["url", b]]] for b in bases], profile=2)
     bi = {b: i for i, b in enumerate(bases)}
